@@ -21,7 +21,9 @@ Methods   == {"GET", "POST", "OPTIONS", "get", "HEAD", "PUT", "DELETE"}
 \* normalised paths: start with '/', no empty segment (the router would redirect those)
 ValidPath(p) == /\ Len(p) >= 1 /\ p[1] = "sl"
                 /\ \A i \in 1..(Len(p) - 1) : ~(p[i] = "sl" /\ p[i+1] = "sl")
-Paths == {p \in SeqsUpTo(PathAtoms, 1, MaxPath) : ValidPath(p)}
+\* (what X-Forwarded-Uri carries has not passed the router: it may begin with an empty segment - "//docs/api" is a path, not a host)
+SlashyPaths == { <<"sl", "sl", "a">>, <<"sl", "sl", "b", "sl", "a">>, <<"sl", "sl", "b", "sl", "a", "sl", "b">>, <<"sl", "sl", "a", "sl", "b">> }
+Paths == {p \in SeqsUpTo(PathAtoms, 1, MaxPath) : ValidPath(p)} \cup SlashyPaths
 
 \* queries embed rule-like fragments; the last one is a fragment (only reachable via X-Forwarded-Uri)
 Queries == { <<>>,
@@ -90,6 +92,7 @@ NoiseVias == {"noise_get", "noise_options", "rp_noise_get", "rp_noise_options"}
 Mk(m, p, q, f, rs, pf, v) == [method |-> m, path |-> p, query |-> q, frag |-> f, rules |-> rs, preflight |-> pf, via |-> v]
 
 InScope(c) == /\ (c.frag # <<>> => c.via = "xfu")            \* a fragment cannot travel in a request target
+              /\ (c.path \in SlashyPaths => c.via \in {"xfu", "rp_noise_get"} /\ c.frag = <<>>)
               /\ (c.via \in NoiseVias => c.query = <<>> /\ c.method \in {"GET", "POST", "OPTIONS"} /\ (Tier = "quick" => Len(c.rules) = 1))
               \* the further methods only matter for the method comparison: plain request targets
               /\ (c.method \in {"HEAD", "PUT", "DELETE"} => c.query = <<>> /\ c.via = "target" /\ ~c.preflight /\ (Tier = "quick" => Len(c.rules) = 1))
